@@ -22,6 +22,10 @@ CHECKS = {
    text="Exploration: every single cut position of fixed ClientHellos is enumerated, multi-way partitions, interleavings with other flows and the three delivery paths (reader API, per-packet path, real sequential packet loop) are sampled by seed. A clean run shows exactly-once/at-completion/equal-to-one-segment on everything explored; it is not a proof over all hellos.",
    note="Trusts the generator's knowledge of where the record ends (5 + declared length) and the one-segment delivery on a fresh instance as reference; deliveries are kept inside the 20 s flow TTL because the statement does not quantify over time.",
    design="4/C08"),
+ "C09": dict(engine="netsim", technique="deterministic simulation: seeded segmentation x initial sequence number (wrap-biased) x arrival permutation x direction interleaving of generated HTTP/1.x and HTTP/2 exchanges; history oracle against the in-order one-segment delivery plus generator-known head boundaries",
+   text="Exploration: each run delivers one exchange under a sampled tap configuration to the HTTP or unified analyzer (per-packet path or the real sequential loop) and checks: reported iff the reference reports it and equal to it, at most once per direction, attributed to the sender, and never before the head (generator's head length, not the parser's) is contiguously present. Violation classes are separated by cause (wrap, non-contiguous, early, order, segmentation, direction, duplicate-report).",
+   note="Reference = same code on the in-order one-segment delivery at ISN 1000/5000 (so an error shared by every delivery is invisible here; C05/C16 territory). Retransmitted duplicates are not injected: the statement quantifies over divisions, origins and orders. Deliveries stay inside the 60 s flow TTL.",
+   design="4/C09"),
  "C17": dict(engine="netsim", technique="deterministic simulation: seeded + enumerated chunkings of generated HTTP/2 connection starts through the incremental extractor; history oracle + reference model of the Akamai format computed from the generator's structure",
    text="Exploration: frame sequences (settings incl. unknown ids, WINDOW_UPDATE/PRIORITY before and after SETTINGS, HEADERS with PADDED/PRIORITY/CONTINUATION, with/without preface) are drawn by seed; every single cut of fixed short streams is enumerated, multi-way chunkings sampled. Checked: at most one report, on the chunk completing the first SETTINGS frame, equal to the one-shot result on that prefix, and the one-shot result equal to an independent reference model string and SHA-256 prefix.",
    note="The reference model is 30 lines of harness code over the generator's structure (not over parsed bytes). An empty first SETTINGS frame is treated as unspecified by the statement: only incremental == one-shot is required there.",
